@@ -425,6 +425,10 @@ def check(prop: str, tier: str, replay: Optional[str]) -> int:
             else:
                 v.diverge(clause, case)
 
+    if replay and json.loads(open(replay).read()).get("machine") == "Snoop":
+        from . import snoop
+        snoop.check_into(v, prop, json.loads(open(replay).read()))
+        return v.finish({"states": 1, "transitions": 1, "traces_validated_against_impl": 1, "samples": []}, ["replay of one snoop session"])
     if replay:
         case = json.loads(open(replay).read())
         hs = [([(int(i), list(f)) for (i, f) in case["frames"]], int(case["nids"]), bool(case["active"]))]
@@ -533,6 +537,12 @@ def check(prop: str, tier: str, replay: Optional[str]) -> int:
                     v.fail("log_differs_from_frames", {"machine": "IsoTp", "origin": f"log:{fmt}", "nids": nids, "active": False,
                                                        "frames": [[i, f] for (i, f) in frames], "expected_reports": direct, "got": got,
                                                        "exc": exc, "frame_kind": "log"})
+    snoop_stats: Dict[str, Any] = {}
+    if prop == "C13":
+        # the telegrams go on into the snoop tool's session machine (spec/Snoop.tla): no telegram makes it raise
+        from . import snoop
+        snoop_stats = snoop.check_into(v, prop)
+        print(f"[{prop}] snoop sessions: {snoop_stats}", flush=True)
     judge(hs, "random")
     samples.append({"random_stream": [[i, bytes(f).hex()] for (i, f) in hs[0][0][:6]]})
     cov = {"states": states, "transitions": transitions,
@@ -543,7 +553,7 @@ def check(prop: str, tier: str, replay: Optional[str]) -> int:
                    (", all single/double faults at every position" if prop == "C13" else "") +
                    ") executed once on a cloned real reassembler and compared with the model state; random streams "
                    "beyond the modelled scope judged line by line by TLC with the ghost monitor of IsoTp.tla",
-           "exhaustive": True, "design": design, "replay": stats, "samples": samples}
+           "exhaustive": True, "design": design, "replay": stats, "snoop": snoop_stats, "samples": samples}
     return v.finish(cov, ["TLC and the CommunityModules", "my reading of ISO 15765-2 in IsoTp.tla (sender side)",
                           "python-can Message objects in the fake bus", "the projection in harness/isotp.py"])
 
